@@ -681,6 +681,57 @@ let run_compile (args : sx list) : sx =
          sx_result sx_query (compile e re_ok_oracle s)]
   | _ -> failwith "compile: bad args"
 
+(* ---------- string forms (C10, C17) ---------------------------------------------- *)
+(* (roundtrip <env> <text> <ctx> (<doc> ...)) *)
+let rec run_roundtrip (args : sx list) : sx =
+  match args with
+  | [ev; text; ctx; L docs; ast] ->
+      (* with the intended AST: also the specification's nodes for it (keys token of this environment) *)
+      let e = env_of_sx ev in
+      let c = json_of_sx ctx in
+      let q = query_of_sx ast in
+      (try
+         let base = run_roundtrip [ev; text; ctx; L docs] in
+         let nodes = L (List.map (fun d -> L (List.map sx_node (query_nodes re_full_oracle re_search_oracle e.e_keys q (json_of_sx d) c))) docs) in
+         L [A "with-ast"; base; nodes; sx_bool (ext_query q)]
+       with Unsupported_case w -> L [A "unsupported"; A w])
+  | [ev; text; ctx; L docs] ->
+      let e = env_of_sx ev in
+      let s = ustr_of_sx text in
+      let c = json_of_sx ctx in
+      let docs = List.map json_of_sx docs in
+      (try
+         match compile e re_ok_oracle s with
+         | Err x -> L [A "compile-err"; A (exn_name x)]
+         | Ok q ->
+             let ev_on q = L (List.map (fun d -> sx_result (fun ms -> L (List.map sx_jmatch ms))
+                                                 (compound_finditer e re_full_oracle re_search_oracle q d c)) docs) in
+             (match query_text e q with
+              | Err x -> L [A "text-err"; A (exn_name x); sx_query q]
+              | Ok t1 ->
+                  (match compile e re_ok_oracle t1 with
+                   | Err x -> L [A "recompile-err"; A (exn_name x); sx_ustr t1; sx_query q]
+                   | Ok q2 ->
+                       L [A "ok"; sx_query q; sx_ustr t1; sx_query q2;
+                          sx_result sx_ustr (query_text e q2); ev_on q; ev_on q2;
+                          L [A "gate"; sx_bool (gate_query e.e_min_index e.e_max_index q)];
+                          L [A "ext"; sx_bool (ext_query q)]]))
+       with Unsupported_case w -> L [A "unsupported"; A w])
+  | _ -> failwith "roundtrip: bad args"
+
+(* ---------- compile-time gate (C07) --------------------------------------------- *)
+(* (gate <env> <min> <max> <text> <ast>) *)
+let run_gate (args : sx list) : sx =
+  match args with
+  | [ev; lo; hi; text; ast] ->
+      let e0 = env_of_sx ev in
+      let e = { e0 with e_min_index = atom_z lo; e_max_index = atom_z hi } in
+      let q = query_of_sx ast in
+      L [A "ok"; sx_result sx_query (compile e re_ok_oracle (ustr_of_sx text));
+         L [A "std"; sx_bool (std_query q)];
+         L [A "gate"; sx_bool (gate_query e.e_min_index e.e_max_index q)]]
+  | _ -> failwith "gate: bad args"
+
 (* ---------- dispatch ---------------------------------------------------- *)
 let dispatch (x : sx) : sx =
   match x with
@@ -695,6 +746,8 @@ let dispatch (x : sx) : sx =
   | L (A "project" :: args) -> run_project args
   | L (A "compose" :: args) -> run_compose args
   | L (A "compile" :: args) -> run_compile args
+  | L (A "roundtrip" :: args) -> run_roundtrip args
+  | L (A "gate" :: args) -> run_gate args
   | _ -> failwith "unknown case kind"
 
 let () =
